@@ -82,17 +82,32 @@ class LeafIter(object):
         pass
 
 
+class LeafIterFalsy(LeafIter):
+    """A leaf whose truth value is False (a drained queue-like iterator)."""
+
+    def __bool__(self):
+        return False
+
+
+class LeafIterEmptyLen(LeafIter):
+    def __len__(self):
+        return 0
+
+
+LEAF_KINDS = [LeafIter, LeafIterFalsy, LeafIterEmptyLen]
+
+
 class AwLeaf(object):
-    def __init__(self, W, tid):
-        self.it = LeafIter(W, tid)
+    def __init__(self, W, tid, kind=0):
+        self.it = LEAF_KINDS[kind](W, tid)
         W.leaves[tid] = self.it
 
     def __await__(self):
         return self.it
 
 
-def leaf_iter(W, tid):
-    it = LeafIter(W, tid)
+def leaf_iter(W, tid, kind=0):
+    it = LEAF_KINDS[kind](W, tid)
     W.leaves[tid] = it
     return it
 
@@ -192,10 +207,11 @@ class ChainGen(object):
                 self.emit_trap(kind, ind)
             else:
                 tid = self.id()
+                lk = t.weighted([3, 1, 1])
                 if kind in ("coro", "agen"):
-                    L.append("    " * ind + "await AwLeaf(W, %d)" % tid)
+                    L.append("    " * ind + "await AwLeaf(W, %d, %d)" % (tid, lk))
                 else:
-                    L.append("    " * ind + "yield from leaf_iter(W, %d)" % tid)
+                    L.append("    " * ind + "yield from leaf_iter(W, %d, %d)" % (tid, lk))
         else:
             callee = "c%d(W)" % (i + 1)
             sid = self.id()
